@@ -87,6 +87,9 @@ pub enum Mut {
     /// have moved the client on: it has to be refused as well), then the canonical request of this
     /// position (which must still pass)
     WrongStepThen { send: usize },
+    /// the canonical request of another step and, behind it in the same write, the canonical request
+    /// of this position: the first reply group must be an error, the second must pass
+    PipelinedWrongStep { send: usize },
     /// the whole canonical sequence including End is walked first; then the canonical request of
     /// step `send` (Test01..Test11) is sent under the finished client id: a step out of order
     AfterEnd { send: usize },
@@ -335,7 +338,7 @@ fn apply(req: &mut Value, m: &Mut) {
         Mut::SetParams(v) => {
             req.as_object_mut().unwrap().insert("parameters".into(), v.clone());
         }
-        Mut::WrongStep { .. } | Mut::WrongStepThen { .. } | Mut::AfterEnd { .. } | Mut::Duplicate | Mut::Race { .. } => {}
+        Mut::WrongStep { .. } | Mut::WrongStepThen { .. } | Mut::PipelinedWrongStep { .. } | Mut::AfterEnd { .. } | Mut::Duplicate | Mut::Race { .. } => {}
     }
 }
 
@@ -557,7 +560,9 @@ pub fn run_q(case: &QCase) -> (SimEnd, crate::sched::SimStats, QObs) {
                 Err(e) => ob.prefix_failed = Some(e),
                 Ok((client_id, prev, strings)) => {
                     let mut req = match &d.m {
-                        Mut::WrongStep { send } | Mut::WrongStepThen { send } => canonical_request(*send, &client_id, &prev, &strings),
+                        Mut::WrongStep { send } | Mut::WrongStepThen { send } | Mut::PipelinedWrongStep { send } => {
+                            canonical_request(*send, &client_id, &prev, &strings)
+                        }
                         // (Test02's canonical argument is the fixed reply of Test01)
                         Mut::AfterEnd { send } => {
                             let p = if *send == 2 { json!({"bool": true}) } else { Value::Null };
@@ -568,6 +573,31 @@ pub fn run_q(case: &QCase) -> (SimEnd, crate::sched::SimStats, QObs) {
                     apply(&mut req, &d.m);
                     let silent_ok = req.get("oneway") == Some(&json!(true));
                     match &d.m {
+                        Mut::PipelinedWrongStep { .. } => {
+                            let due = canonical_request(d.step, &client_id, &prev, &strings);
+                            let mut b = serde_json::to_vec(&req).unwrap();
+                            b.push(0);
+                            b.extend(serde_json::to_vec(&due).unwrap());
+                            b.push(0);
+                            net.client_send(id, &b);
+                            wait_quiescent(&ctl);
+                            let (frames, ended) = raw.new_frames();
+                            // reply groups: a group ends with the first frame that does not carry continues
+                            let mut groups: Vec<Vec<Value>> = vec![vec![]];
+                            for f in frames {
+                                let fin = f.get("continues") != Some(&json!(true));
+                                groups.last_mut().unwrap().push(f);
+                                if fin {
+                                    groups.push(vec![]);
+                                }
+                            }
+                            ob.reached = true;
+                            ob.request = req;
+                            ob.ended = ended;
+                            ob.replies = groups.first().cloned().unwrap_or_default();
+                            ob.copies.push(groups.first().and_then(|g| g.last().cloned()));
+                            ob.copies.push(groups.get(1).and_then(|g| g.last().cloned()));
+                        }
                         Mut::Duplicate | Mut::Race { .. } => {
                             let mut b = serde_json::to_vec(&req).unwrap();
                             b.push(0);
@@ -796,6 +826,23 @@ pub fn judge_q(case: &QCase, end: &SimEnd, o: &QObs) -> (Vec<Violation>, bool) {
                 }
             }
             continue;
+        }
+        if let Mut::PipelinedWrongStep { send } = &d.m {
+            match ob.copies.get(1) {
+                Some(Some(r2)) if r2.get("error").is_none() => {}
+                other => {
+                    if !ob.ended {
+                        v.push(viol(
+                            "C19",
+                            "canonical-step-refused-after-deviation",
+                            format!(
+                                "client at step {}: {} and, behind it in the same write, the canonical {} were sent; the canonical step was answered with {:?}",
+                                STEPS[d.step], STEPS[*send], STEPS[d.step], other
+                            ),
+                        ));
+                    }
+                }
+            }
         }
         if let Mut::WrongStepThen { send } = &d.m {
             if let Some(Some(r2)) = ob.copies.first() {
@@ -1044,6 +1091,14 @@ pub fn deviation_space(canon_params: &[Value]) -> Vec<Deviation> {
         for send in 1..13 {
             if send != step {
                 v.push(Deviation { step, m: Mut::WrongStep { send } });
+            }
+        }
+        // an out-of-order step with the step that is due right behind it in the same write
+        if step >= 1 && step != 11 {
+            for send in [1usize, 9, 10, 12] {
+                if send != step {
+                    v.push(Deviation { step, m: Mut::PipelinedWrongStep { send } });
+                }
             }
         }
         // a finished client id is not a fresh one: after End every earlier step is out of order
